@@ -533,6 +533,7 @@ type runSpec struct {
 	bad       []badSig
 	extras    []extra
 	timed     []timedSig // time-bounded RRSIGs over the root DNSKEY RRset
+	ttl       uint32     // TTL of the served root DNSKEY RRset (0: 3600)
 	baseSig   []kref     // signers as written on the op line (sp.signers also holds the valid timed ones)
 	fStateRd  bool
 	fTombRd   bool
@@ -555,6 +556,8 @@ func (sp *runSpec) parseOptional(toks []string) {
 			sp.extras = parseExtras(x[2:])
 		case strings.HasPrefix(x, "ts="):
 			sp.timed = parseTimed(x[3:])
+		case strings.HasPrefix(x, "ttl="):
+			sp.ttl = uint32(vlib.Atoi(x[4:]))
 		}
 	}
 	for _, t := range sp.timed {
@@ -565,6 +568,11 @@ func (sp *runSpec) parseOptional(toks []string) {
 }
 
 func (sp *runSpec) answer() []dns.RR {
+	servedTTL = 3600
+	if sp.ttl != 0 {
+		servedTTL = sp.ttl
+	}
+	defer func() { servedTTL = 3600 }()
 	base := sp.baseSig
 	if base == nil && len(sp.timed) == 0 {
 		base = sp.signers
@@ -901,6 +909,9 @@ func exec(op string) vlib.Res {
 		}
 		if len(sp.timed) > 0 {
 			tags += ",timed-rrsig"
+		}
+		if sp.ttl != 0 && sp.ttl != 3600 {
+			tags += ",other-ttl"
 		}
 		if S.strayTemp() && verdict == "ok" {
 			verdict = "FAIL sig=autota/atomic-write/temp-file-left-behind"
